@@ -10,6 +10,9 @@ CLAIMED = {
              note='CBMC + SAT back ends trusted; env allocator/exception models; operands beyond 3 words and other shift counts outside; the Scheme wrappers of bitwise.scm outside.',
              technique='bounded model checking of real C (CBMC/SAT) vs bit-vector oracle', ref='5 C17'),
 }
+CLAIMED['C15'] = dict(text='Bounded model checking of the real sexp_equalp_bound/sexp_equalp_op (sexp.c) and sexp_hash/hash_one (lib/srfi/69/hash.c): equal? is reflexive, symmetric, transitive and holds exactly when contents agree, and equal? objects have the same raw hash, over operand kinds fixnum/char/flonum (all 64 bits free)/bignum 1-2 free words incl. leading zero words/strings at free offsets into free byte stores/bytevectors/pairs/vectors/symbols; kinds enumerated per query.',
+             note='CBMC + SAT trusted; context and type table built by hand from the real _sexp_type_specs; exception constructors modelled; container leaves are constants; nesting depth 1; hash-table cell/delete step and user-supplied hash/equality closures outside (thorough tier extends).',
+             technique='bounded model checking of real C (CBMC/SAT), relational properties over symbolic objects', ref='5 C15')
 NOT_APPLICABLE = {
  'C07': 'macro hygiene lives in Scheme code (lib/init-7.scm renamer/syntax-rules) executed by the VM on symbolic programs: no C kernel states the property; symbolic execution of the VM over symbolic programs is out of BMC reach (DESIGN 6)',
  'C20': 'lib/chibi/regexp.scm is 100% Scheme; there is no C kernel to encode and no Scheme-to-SMT engine in the image (DESIGN 6)',
